@@ -10,6 +10,7 @@ import (
 	"go/parser"
 	"go/token"
 	"go/types"
+	"os"
 	"path/filepath"
 	"strings"
 )
@@ -86,6 +87,18 @@ func (l *loader) load(rel string) (*pkgInfo, error) {
 		return pi, nil
 	}
 	dir := filepath.Join(l.repo, rel)
+	if rel == SelftestPkg { // the translator's own self-test package (harness/xtr/selftest), not acra code
+		d, err := selftestDir()
+		if err != nil {
+			return nil, err
+		}
+		defer os.RemoveAll(d)
+		dir = d
+		path = "acra-vh/xtr/selftest"
+		if pi, ok := l.pi[path]; ok {
+			return pi, nil
+		}
+	}
 	ctx := build.Default
 	bp, err := ctx.ImportDir(dir, 0)
 	if err != nil {
